@@ -173,6 +173,10 @@ def run_check(prop, tier, replay=None):
     try:
         import copy
         muts = prop.corruptions(copy.deepcopy(recs))
+        # a corruption only proves something when the clause HELD on the record it was derived from (on a tree that
+        # breaks the property - or disagrees with a model - a "corrupted" copy may happen to be the right one)
+        failed = {(i, c) for i, c, _ in fails}
+        muts = [mu for mu in muts if not ((mu[2]["id"], mu[3]) in failed if mu[0] == "pair" else (mu[0]["id"], mu[1]) in failed)]
         if muts:
             mrecs, targets = [], []
             for k, mu in enumerate(muts):
